@@ -141,28 +141,31 @@ def bounds(name, hyps):
 
 
 def candidates(lo, hi, nargs):
-    s = set()
+    """candidate values of one argument, MOST IMPORTANT FIRST (thinning keeps a prefix)"""
     if hi - lo < 256:
-        return list(range(lo, hi + 1))
-    for k in range(1, 65):
-        for d in (-1, 0, 1):
-            s.add((1 << k) + d)
-    s.update([0, 1, 2, 3, lo, lo + 1, hi, hi - 1, hi - 2])
-    s.update(range(256))
-    return sorted(x for x in s if lo <= x <= hi)
+        first = [lo, lo + 1, hi, hi - 1, 63, 64, 65, 127, 128, 129, 191, 192, 193, 15, 16, 17, 31, 32, 33, 2, 3, 8, 9, 7, 240, 239, 241]
+        seen, res = set(), []
+        for x in first + list(range(lo, hi + 1)):
+            if lo <= x <= hi and x not in seen:
+                seen.add(x)
+                res.append(x)
+        return res
+    out = [lo, lo + 1, hi, hi - 1, hi - 2, 0, 1, 2, 3]
+    ks = [8, 16, 32, 64, 56, 24, 40, 48, 5, 6, 7, 4] + [k for k in range(1, 65) if k not in (8, 16, 32, 64, 56, 24, 40, 48, 5, 6, 7, 4)]
+    for k in ks:
+        out += [(1 << k), (1 << k) - 1, (1 << k) + 1]
+    out += list(range(4, 65)) + list(range(65, 256))
+    seen, res = set(), []
+    for x in out:
+        if lo <= x <= hi and x not in seen:
+            seen.add(x)
+            res.append(x)
+    return res
 
 
 def thin(vals, n):
-    """keep n values: both ends and evenly spaced ones"""
-    if len(vals) <= n:
-        return vals
-    keep = set(vals[:2] + vals[-2:])
-    step = len(vals) / float(max(1, n - 4))
-    i = 0.0
-    while i < len(vals):
-        keep.add(vals[int(i)])
-        i += step
-    return sorted(keep)
+    """keep the n most important values (candidates() lists them in order of importance)"""
+    return vals[:max(1, n)]
 
 
 def rand_value(rng, lo, hi):
